@@ -14,7 +14,7 @@ def c14(ctx: Ctx):
     ctx.assumptions = [
         "TLC and the CommunityModules Json/CSV modules",
         "the harness's scripted handler, recording ResponseWriter (net/http status-code panic emulated) and request realiser (harness/c14.go)",
-        "two fixed test documents (4 operations without / 2 operations with a global security requirement; response map {200: json schema, 201: no content}); handler alphabet and body tokens as in spec/Middleware.tla",
+        "three fixed test documents (4 operations without / 2 operations with a global security requirement / 1 operation behind a server URL with scheme, host, port and base path; response map {200: json schema, 201: no content}); handler alphabet and body tokens as in spec/Middleware.tla",
         "the ClientModel of spec/Middleware.tla (first final WriteHeader wins, 1xx other than 101 commits nothing, Write/Flush imply 200) is net/http's for the statuses of the universe {103, 200, 201, 204, 500} and the error statuses: judged per run against a real net/http server + client for behaviours of <= 2 calls and all with a 1xx status (clause client_model_is_net_http); 304 and 101 are outside the universe",
         "bodies made of a complete valid JSON document followed by more bytes are outside the universe (Clear)",
     ]
@@ -45,8 +45,8 @@ def c14(ctx: Ctx):
     ctx.rule = ("every terminal state of spec/Middleware.tla is one case: all handler call sequences up to MaxCalls over the 12 core calls "
                 "(+ up to ExtMax of the 9 extended calls: WriteHeader(1xx), WriteHeader(204), io.Copy, ResponseController.Flush, body read, interface probe, panic; "
                 "length <= ExtDepth) x strict x errFunc mode x gate (Validator, 3 ValidationHandler forms) for the main request classes; "
-                "up to SideCalls calls for the configurations that vary the gate only (21 request classes over 2 documents x 4 ways of "
-                "configuring AuthenticationFunc x request-side options x sequential/concurrent primers); "
+                "up to SideCalls calls for the configurations that vary the gate only (26 request classes over 3 documents x 4 ways of "
+                "configuring AuthenticationFunc x request-side options x sequential/concurrent primers x every ordered pair (prior request, observed request) of classes of one document on one gate instance); "
                 "non-trivial = security-bearing or gate-failing request, or non-empty handler script")
     rng = random.Random(ctx.seed)
     ctx.samples = sample(rng, cs, 5)
